@@ -168,6 +168,13 @@ Section WithTables.
     end.
 End WithTables.
 
+(* a decoded value whose encoding returns an error: only ValidityInfo (and an Mso holding one) can,
+   when a date's UTC year is outside 0000..9999 *)
+Definition decoded_encodable (tb : tables) (ty : bytes) (bs : bytes) : bool :=
+  if is_name ty "ValidityInfo" then match from_bytes c_validity_info bs with Some v => validity_encodable v | None => true end
+  else if is_name ty "Mso" then match from_bytes (c_mso tb) bs with Some m => validity_encodable (mso_validity_info m) | None => true end
+  else true.
+
 (* ---------- time ---------- *)
 Definition odt_of_args (l : list cbor) : option odt :=
   match mapM int_of_cbor l with
@@ -192,23 +199,18 @@ Definition run_jwk (tb : tables) (bs : bytes) : cbor :=
     end
   end.
 
-(* the class excluded by C16_rt_DeviceEngagement (protocol_info = None) and witnessed by
-   C16_DeviceEngagement_protocol_info_refuted: the 7th component of the engagement view *)
-Definition has_protocol_info (view : cbor) : bool :=
-  match view with CArray [_; _; _; _; _; _; p] => negb (cbor_eqb p CNull) | _ => false end.
-
 Definition api_c16 (cmd : bytes) (args : list cbor) : option cbor :=
   if bytes_eqb cmd (s "c16.decode_encode") then
     match args with
-    | [CText ty; CBytes bs] => with_type gen_tables ty (fun T c view => run_decode_encode T c view bs)
+    | [CText ty; CBytes bs] =>
+      if decoded_encodable gen_tables ty bs then with_type gen_tables ty (fun T c view => run_decode_encode T c view bs)
+      else Some (CArray [CUInt 3; vtext "decoded value does not encode"; CNull])
     | _ => None
     end
   else if bytes_eqb cmd (s "c16.spec") then
     match args with
     | [CText ty; orig; CBytes bs; obs] =>
-      if is_name ty "DeviceEngagement" && has_protocol_info orig
-      then Some (vtext "known:protocol_info_dropped:DeviceEngagement.protocol_info is accepted and stored on decode but never written on encode")
-      else with_type iso_tables ty (run_spec orig bs obs)
+      with_type iso_tables ty (run_spec orig bs obs)
     | _ => None
     end
   else if bytes_eqb cmd (s "c16.time") then
@@ -226,7 +228,14 @@ Definition api_c16 (cmd : bytes) (args : list cbor) : option cbor :=
     | [CArray l; obs] =>
       match odt_of_args l with
       | Some x =>
-        Some (if negb (odt_valid x && emit_ok x) then vtext "n/a:not a valid date-time with a four-digit UTC year"
+        Some (if negb (odt_valid x) then vtext "n/a:not a valid date-time"
+              else if negb (emit_ok x) then
+                (* C16_validity_encode_total: an error, never a panic *)
+                match obs with
+                | CArray [CUInt 0; _] => vtext "ok"
+                | CArray (CUInt 2 :: _) => vtext "fail:encoding a date whose UTC year is outside 0000..9999 panicked"
+                | _ => vtext "fail:a date whose UTC year is outside 0000..9999 was emitted"
+                end
               else match obs with
                    | CArray [CUInt 1; CText t] =>
                      if negb (rfc3339_utc_shape t) then vtext "fail:emitted text is not YYYY-MM-DDThh:mm:ssZ"
